@@ -32,6 +32,8 @@ def native_call(pid, repo, mode, payload=None, timeout=1800):
 
 
 def main(argv=None):
+  import faulthandler, signal
+  faulthandler.register(signal.SIGUSR1, all_threads=True)   # kill -USR1 <pid> dumps the stacks of a stuck checker
   ap = argparse.ArgumentParser()
   ap.add_argument('pid')
   ap.add_argument('--tier', default=os.environ.get('VERIF_TIER', 'quick'))
@@ -115,6 +117,10 @@ def generic(mod, pid, args, seed, t0):
   names = [o.name for o in obls]
   failed = [o for o in obls if o.status != 'proved']
   problems = []     # (exit code, message)
+  # a solver process that had to be killed at the wall-clock backstop says nothing about the code
+  for o in [o for o in failed if getattr(o, 'killed', False)]:
+    problems.append((2, 'UNDECIDED property=%s obligation=%s reason=%s' % (pid, o.name, o.reason)))
+  failed = [o for o in failed if not getattr(o, 'killed', False)]
   # vacuity guards
   for f in per_fn:
     if not f['obligations']:
@@ -226,7 +232,7 @@ def generic(mod, pid, args, seed, t0):
           trusted_base=['engine/ (VC generator, DESIGN 2.3 semantics)', 'z3 %s' % _z3v(), 'cvc5 1.0.3 (fallback)'] + trusted,
           functions_under_contract=fns,
           per_obligation=[dict(name=o.name, kind=o.kind, status=o.status, backend=o.backend,
-                               seconds=round(o.seconds, 4), line=o.line, detail=o.detail) for o in obls],
+                               seconds=round(o.seconds, 4), rlimit=getattr(o, 'rlimit', 0), line=o.line, detail=o.detail) for o in obls],
           solver_seconds=round(sum(o.seconds for o in obls), 3),
           canaries=[dict(function=c.label, exits_checked=len(os_),
                          statuses=[o.status for o in os_]) for c, os_ in canaries],
